@@ -188,6 +188,41 @@ def lattice(tier):
   add(_cfg("quantized_ulaw", {"bits": 6, "integer": 0, "u": 15.0}))
   for a, real, ph in itertools.product([None, 0.5, "auto", "auto_po2"], [True, False], [0, 1]):
     add(_cfg("bernoulli", {"alpha": a, "use_real_sigmoid": real}, phase=ph, tf_seed=23), ("r2", "r1"))
+  # ---- post-construction mutation: _set_trainable_parameter() directly or via
+  # QDense(kernel_quantizer=q), before / after a first call
+  def mutated(cfg, mut, when):
+    return dict(cfg, mutation=mut, when=when)
+  mut_cfgs = []
+  for u01 in (False, True):
+    mut_cfgs.append(_cfg("binary", {"use_01": u01}))
+  mut_cfgs.append(_cfg("binary", {"alpha": None, "use_stochastic_rounding": True}, phase=1, tf_seed=31))
+  mut_cfgs.append(_cfg("ternary", {}))
+  mut_cfgs.append(_cfg("ternary", {"alpha": None, "number_of_unrolls": 2}))
+  for real, ph in itertools.product([True, False], [0, 1]):
+    mut_cfgs.append(_cfg("stochastic_binary", {"use_real_sigmoid": real}, phase=ph, tf_seed=37))
+    mut_cfgs.append(_cfg("stochastic_ternary", {"use_real_sigmoid": real}, phase=ph, tf_seed=41))
+  mut_cfgs.append(_cfg("bernoulli", {}, phase=1, tf_seed=43))
+  for (b, i, kn, s), (ste, f) in itertools.product(
+      [(8, 0, True, 0), (4, 1, True, 1), (3, 0, False, 0)], [(True, 1.0), (False, 0.3)]):
+    mut_cfgs.append(_cfg("quantized_bits", _ste({"bits": b, "integer": i, "keep_negative": kn,
+                                                 "symmetric": s}, ste, f)))
+  for (b, i, kn, s), f in itertools.product(
+      [(8, 0, True, 1), (4, 1, True, 0), (1, 0, True, 1), (3, 0, False, 0)], [1.0, 0.3]):
+    kw = {"bits": b, "integer": i, "keep_negative": kn, "symmetric": s}
+    if f != 1.0:
+      kw["qnoise_factor"] = f
+    mut_cfgs.append(_cfg("quantized_linear", kw))
+  for cfg in mut_cfgs:
+    for mut, when in itertools.product(["trainable", "qdense"], ["before", "after"]):
+      if cfg["cls"] == "stochastic_ternary" and cfg["phase"] == 1 and when == "after":
+        continue     # a training-phase call with alpha=None is documented as invalid (assert)
+      add(mutated(cfg, mut, when), ("sr",) if cfg["kw"].get("use_stochastic_rounding") else ("r2",))
+  # controls: an explicit alpha is left alone by the mutation
+  for cls, a in itertools.product(["binary", "ternary", "quantized_bits", "quantized_linear"],
+                                  [0.5, "auto"]):
+    for mut in ("trainable", "qdense"):
+      add(mutated(_cfg(cls, {"alpha": a}), mut, "before"))
+
   # deterministic pseudo-random order: a run cut short by its time budget still
   # touches every class, and the workers' shares are balanced
   from vf import core  # pylint: disable=g-import-not-at-top
@@ -242,6 +277,14 @@ def probe(cfg, layout, channels=None):
     xs = np.asarray([v for pair in zip(col0, SR_OTHER) for v in pair], dtype=F32)
     rs = [R_CYCLE[(3 * j + j // 5) % len(R_CYCLE)] for j in range(len(xs))]
     return {"cfg": cfg, "shape": [len(col0), 2], "xs": [float(v) for v in xs], "rs": rs}
+  raw = cfg
+  cfg = R.effective(cfg)       # kinks / channels of the configuration after the mutation
+  case = _probe(cfg, layout, channels)
+  case["cfg"] = raw
+  return case
+
+
+def _probe(cfg, layout, channels=None):
   if layout == "sr":
     # two channels: one with max|x| <= 1 (the rounding scale f follows the
     # data), one with max|x| > 1 (f = 2); no all-zero channel
@@ -431,11 +474,25 @@ def case_strategy(tier):
       kw["use_real_sigmoid"] = draw(st.booleans())
       phase, seed = draw(st.sampled_from([0, 1])), draw(st.integers(0, 99))
     cfg = _cfg(cls, kw, sigmoid, phase, seed)
+    if cls in R.TRAINABLE and draw(st.integers(0, 3)) == 0 and not (
+        cls in ("ternary", "stochastic_ternary") and kw.get("alpha") is None
+        and kw.get("threshold") is not None):
+      cfg["mutation"] = draw(st.sampled_from(["trainable", "qdense"]))
+      cfg["when"] = draw(st.sampled_from(["before", "after"]))
+      # QDense.__init__ derives a weight constraint from quantizer.max(), which
+      # does not accept a per-channel alpha array, nor the per-channel scale a
+      # quantized_linear(alpha='auto*') carries after a first call (ValueError
+      # "truth value of an array"): layer-construction matters, not generated
+      if isinstance(kw.get("alpha"), list):
+        cfg["mutation"] = "trainable"
+      if cls == "quantized_linear" and isinstance(kw.get("alpha"), str):
+        cfg["when"] = "before"
 
     # ---- tensor: mixture of points placed around the static kinks, a spread
     # over the range, and (rarely) zeros / extremes
-    kinks = R.static_kinks(cfg)
-    sp = _span(cfg)
+    ecfg = R.effective(cfg)
+    kinks = R.static_kinks(ecfg)
+    sp = _span(ecfg)
     n = int(np.prod(shape))
     spread = st.floats(min_value=-4.0, max_value=4.0, width=32, allow_nan=False).map(lambda t: t * sp)
     parts = [spread, spread]
